@@ -85,4 +85,15 @@ def build(tier):
                           stubs=['addMovesByMask/addPawnMovesByMask/addPawnDoubleMovesByMask -> recording models (justified by O2-expand)', 'slider/bit kernels -> models (justified by O1 lemmas)'],
                           bounds='two kings + %d further men of any kind and colour on any squares, castling rights / en-passant square as accepted by the FEN reader; candidate move (from,to,promotion) universally quantified' % (K - 2),
                           assumptions=['checkEvasions is only asked when the side to move is in check', 'under-promotions to rook/bishop are outside the class of the two capture generators (they emit queen and knight promotions only, by design)']))
+    # ---- O4: the real en-passant fix-up (real move list, no recording): extended, 4 men
+    uf = Unit('fixup4', 'C01/fixup.cpp', ['h_fixup'], defines={'NMEN': 4, 'ALLPRESENT': None}, aliases=SUBST, lemmas=['O1-rook', 'O1-bishop', 'O1-bits'],
+              allow_extern=[r'_ZN11NNEvaluator.*', r'_ZNSt.*', r'_ZNKSt.*', r'_ZSt.*', r'_ZN6TextIO(?!13fixupEPSquare).*', r'_Z.*ChessParseError.*', r'__cxa_\w+', r'_ZT[VI].*', r'_Z7num2Str.*', r'_Z9splitLines.*'])
+    units.append(uf)
+    for w in (0, 1):
+        obs.append(Ob('O4-fixupEP-K4@%d' % w, uf, 'h_fixup', '4-man positions with an en-passant square, %s to move: TextIO::fixupEPSquare keeps it iff a pawn can legally capture en passant; nothing else changes' % ('white' if w else 'black'),
+                      unwind=65, param=w, core=False, tiers=('thorough',) if tier == 'quick' else ('quick', 'thorough'), timeout=3600, mem_gb=16, backend='kissat',
+                      unwind_fn={r'_ZN7MoveGen16pseudoLegalMovesILb[01]EEEvRK8PositionR8MoveList': 29, r'_ZN7MoveGen14addMovesByMaskER8MoveList6Squarem': 29, r'_ZN7MoveGen18addPawnMovesByMaskILb[01]EEEvR8MoveListmib': 9,
+                                 r'_ZN7MoveGen24addPawnDoubleMovesByMaskER8MoveListmi': 9, r'_ZN7MoveGen13removeIllegalER8PositionR8MoveList': 60, r'_ZN6TextIO13fixupEPSquareER8Position': 60},
+                      functions=['TextIO::fixupEPSquare (textio.cpp:182-200)', 'MoveGen::pseudoLegalMoves', 'MoveGen::removeIllegal'], stubs=['kernel models (lemmas O1-*)'],
+                      bounds='two kings, the double-pushed pawn and one further man of any kind; any en-passant square the FEN reader accepts'))
     return units, obs
